@@ -61,12 +61,57 @@ func snapshotIDs(ml *logging.MemLogger) (ids []int, ok bool) {
 	return
 }
 
+// writeLogsAgree reads the buffer through its second reader, WriteLogs (console lines, newest first, fields included), and
+// compares it with the GetLogs snapshot taken just before: "ok", "differs" (the lines parse but show other entries / other
+// fields) or "format" (the lines do not have the tab-separated console layout: not judged).
+func writeLogsAgree(ml *logging.MemLogger, ids []int) string {
+	var buf strings.Builder
+	ml.WriteLogs(&buf, logging.IncludeFields)
+	lines := strings.Split(strings.TrimRight(buf.String(), "\n"), "\n")
+	if buf.Len() == 0 {
+		lines = nil
+	}
+	var got []int
+	for _, ln := range lines {
+		toks := strings.Split(ln, "\t")
+		msg, fields := -1, ""
+		for _, t := range toks {
+			if n, err := strconv.Atoi(t); err == nil && msg < 0 {
+				msg = n
+			}
+			if strings.HasPrefix(t, "{") {
+				fields = t
+			}
+		}
+		if msg < 0 || fields == "" {
+			return "format"
+		}
+		if !strings.Contains(fields, fmt.Sprintf("\"id\": %d}", msg)) && !strings.Contains(fields, fmt.Sprintf("\"id\":%d}", msg)) {
+			return "differs"
+		}
+		got = append(got, msg)
+	}
+	if len(got) != len(ids) {
+		return "differs"
+	}
+	for i := range got {
+		if got[i] != ids[i] {
+			return "differs"
+		}
+	}
+	return "ok"
+}
+
 // RunLogRing executes one sequential history: entries are numbered 1,2,3,... in write order.
 func RunLogRing(w *tr.Writer, st *LStats, tid int, h LHist) {
 	w.NextTrace()
 	st.Traces++
 	ml := newMemLogger()
 	cores := []zapcore.Core{ml.GetCore()}
+	// every other history goes through real zap loggers (zap.New(core), Logger.With, Logger.Info): Check and With are then
+	// reached the way an application reaches them
+	viaZap := tid%2 == 1
+	loggers := []*zap.Logger{zap.New(ml.GetCore())}
 	next := 0
 	emit := func(ev map[string]any) {
 		ev["tid"] = tid
@@ -75,12 +120,17 @@ func RunLogRing(w *tr.Writer, st *LStats, tid int, h LHist) {
 	}
 	emit(map[string]any{"op": "reset", "cap": logging.BufferSize})
 	sig := ""
-	for _, op := range h.Ops {
+	for oi, op := range h.Ops {
 		sig += op.Op[:1]
 		switch op.Op {
 		case "derive":
 			parent := cores[op.Lg%len(cores)]
 			res := Guard(func() string {
+				if viaZap {
+					loggers = append(loggers, loggers[op.Lg%len(loggers)].With(zap.Int("derived", len(cores))))
+					cores = append(cores, loggers[len(loggers)-1].Core())
+					return "ok"
+				}
 				cores = append(cores, parent.With([]zapcore.Field{zap.Int("derived", len(cores))}))
 				return "ok"
 			})
@@ -95,6 +145,10 @@ func RunLogRing(w *tr.Writer, st *LStats, tid int, h LHist) {
 			res := Guard(func() string {
 				for i := 0; i < op.N; i++ {
 					next++
+					if viaZap {
+						loggers[op.Lg%len(loggers)].Info(strconv.Itoa(next), zap.Int("id", next))
+						continue
+					}
 					if err := c.Write(zapcore.Entry{Message: strconv.Itoa(next), Level: zapcore.InfoLevel}, []zapcore.Field{zap.Int("id", next)}); err != nil {
 						return "err"
 					}
@@ -106,11 +160,19 @@ func RunLogRing(w *tr.Writer, st *LStats, tid int, h LHist) {
 		case "snapshot":
 			var ids []int
 			ok := false
-			res := Guard(func() string { ids, ok = snapshotIDs(ml); return "ok" })
+			wl := "ok"
+			res := Guard(func() string {
+				ids, ok = snapshotIDs(ml)
+				// the console rendering of a full buffer is slow: the final snapshot of every third history and every sixth other one
+				if (oi == len(h.Ops)-1 && tid%3 == 0) || (oi+tid)%6 == 0 {
+					wl = writeLogsAgree(ml, ids)
+				}
+				return "ok"
+			})
 			if ids == nil {
 				ids = []int{}
 			}
-			emit(map[string]any{"op": "snapshot", "ids": ids, "ok": ok, "res": res})
+			emit(map[string]any{"op": "snapshot", "ids": ids, "ok": ok, "res": res, "wl": wl})
 		}
 	}
 	st.Distinct[sig] = true
